@@ -135,6 +135,11 @@ def body_for(beh: Dict[str, Any], req: Optional[Dict[str, Any]]) -> Tuple[bytes,
         msgs = [wrong]
     elif kind == "note_only":
         msgs = [note2]
+    elif kind.startswith("flood"):
+        # more messages in one answer than the read stream buffers
+        n = int(kind[5:])
+        msgs = [dict(note1, params={"progressToken": "t", "progress": i}) if i % 2 else
+                dict(note2, params={"level": "info", "data": TEXT + str(i)}) for i in range(n)] + [resp]
     elif kind in ("empty", "truncated", "nonjson", "nonutf8", "json_scalar", "sse_no_message", "sse_bad_json"):
         msgs = []
     else:
@@ -193,6 +198,9 @@ def single_behaviours() -> List[Dict[str, Any]]:
         for body in ("response", "notes_response", "error"):
             out.append({"status": 200, "ctype": "sse", "body": body, "sse": enc})
             out.append({"status": 200, "ctype": "sse_charset", "body": body, "sse": enc})
+    for n in (99, 100, 101, 150, 400):
+        out.append({"status": 200, "ctype": "sse", "body": f"flood{n}"})
+        out.append({"status": 200, "ctype": "json", "body": f"flood{n}"})
     out.append({"status": 200, "ctype": "json_charset", "body": "response"})
     out.append({"status": 200, "ctype": "json", "body": "response", "ascii": True})
     for e in EXCS:
